@@ -71,4 +71,27 @@ theorem rtin_pullEvents_single (cs : CharSpec) (ext : Ext) (input : List Char)
   rw [rtin_allBlocks_single _ hnl hnb]
   rfl
 
+/-! ### well-spelledness is compositional -/
+
+/-- `ts` is well spelled when followed by a text starting with `nx` -/
+def wellSpelledNext (cs : CharSpec) (nx : Option Char) : List Tok → Bool
+  | [] => true
+  | t :: ts => spellOK cs t.kind t.text ((render ts).head?.or nx) && wellSpelledNext cs nx ts
+
+theorem rtin_render_append (a b : List Tok) : render (a ++ b) = render a ++ render b := by
+  simp [render]
+
+theorem rtin_wellSpelled_append (cs : CharSpec) (a b : List Tok) :
+    wellSpelled cs (a ++ b) = (wellSpelledNext cs (render b).head? a && wellSpelled cs b) := by
+  induction a with
+  | nil => simp [wellSpelledNext]
+  | cons t ts ih =>
+    simp only [List.cons_append, wellSpelled, wellSpelledNext, ih, rtin_render_append, List.head?_append,
+      Bool.and_assoc]
+
+theorem rtin_wellSpelledNext_none (cs : CharSpec) (a : List Tok) : wellSpelledNext cs none a = wellSpelled cs a := by
+  induction a with
+  | nil => rfl
+  | cons t ts ih => simp only [wellSpelledNext, wellSpelled, ih, Option.or_none]
+
 end Cook
